@@ -16,6 +16,7 @@
     int<->float comparisons, float // % divmod (see the _partial / _refuted theorems). *)
 From Coq Require Import ZArith String List Bool Lia.
 From V.C04 Require Import Int64 Int64Facts NumBase GenNumTable ModelNum Proofs ProofsAll ProofsMisc ProofsMisc2.
+From V.C04 Require PropsFloat.   (* float part: concrete PrimFloat model, its own file *)
 Import ListNotations.
 Open Scope Z_scope.
 
